@@ -79,6 +79,7 @@ fn main() {
         std::process::exit(2);
     });
 
+    nexrad_verif::journal::install(entry.id, "nontermination");
     if entry.id == "C04" || entry.id == "C06" {
         nexrad_verif::hang::spawn_monitor(entry.id, if tier == Tier::Quick { "quick" } else { "thorough" }, seed, replay.is_none());
     }
